@@ -264,6 +264,13 @@ fn to_xsd_literal_anchors(n: &Node) -> Node {
     }
 }
 
+/// C17 cases carry the XSD dialect so that witness facts are computed on the XSD reading of the text
+fn xsd_case(p: &str, f: &str, s: &str) -> Case {
+    let mut c = Case::raw(p, f, s);
+    c.dialect = Dialect::Xsd;
+    c
+}
+
 impl Monitor for C17 {
     fn rule(&self) -> &'static str {
         "cases = (pattern text, flags, input) compiled under both Regex::xsd and Regex::xpath; (a) gates: patterns that use a reluctant quantifier, (?:, a back-reference, \\$ or flag q must be rejected by xsd with Error::Syntax / InvalidFlags; (b) patterns the independent recogniser (XSD mode) calls valid must be accepted by xsd; (c) patterns free of XPath-only constructs and of ^ $: every API result must be identical under both dialects; (d) ^ and $ are ordinary characters under xsd (reference model with ^/$ as literals). Non-trivial: AST >= 2 nodes."
@@ -373,7 +380,7 @@ impl Monitor for C17 {
                     }
                     let p = ast.render();
                     let inp = gen_input(&mut rng, &ast, &['a', 'b'], 5);
-                    emit(Case::raw(&p, *rng.pick(&["", "i", "q", "s"]), &inp));
+                    emit(xsd_case(&p, *rng.pick(&["", "i", "q", "s"]), &inp));
                 }
                 // \$ gate and escapes in every position
                 2 => {
@@ -386,7 +393,7 @@ impl Monitor for C17 {
                         q.insert(at + j, ch);
                     }
                     let inp = gen_input(&mut rng, &ast, &['a', 'b', '$'], 5);
-                    emit(Case::raw(&q.into_iter().collect::<String>(), "", &inp));
+                    emit(xsd_case(&q.into_iter().collect::<String>(), "", &inp));
                 }
                 // common subset (incl. ^ $ as literals via the alphabet)
                 _ => {
@@ -399,7 +406,7 @@ impl Monitor for C17 {
                     let fl = *rng.pick(&["", "", "i", "s", "m", "x"]);
                     for _ in 0..2 {
                         let inp = gen_input(&mut rng, &ast, &['a', 'b', '^', '$', '\n'], 7);
-                        emit(Case::raw(&p, fl, &inp));
+                        emit(xsd_case(&p, fl, &inp));
                     }
                 }
             }
@@ -407,7 +414,11 @@ impl Monitor for C17 {
         J::obj().with("random_patterns_this_shard", J::u(n))
     }
     fn corpus(&self) -> Vec<Case> {
-        raw(&[("a*?", "", "a"), ("(?:a)", "", "a"), ("(a)\\1", "", "aa"), ("\\$", "", "$"), ("a", "q", "a"), ("^a$", "", "^a$"), ("^a$", "", "a"), ("a^b", "", "a^b"), ("[a-c]+", "", "abc"), ("a+?", "", "a"), ("a{1,2}?", "", "a"), ("a??", "", "a"), ("$*", "", "$$"), ("(a|b)*c", "", "abc")])
+        let mut v = raw(&[("a*?", "", "a"), ("(?:a)", "", "a"), ("(a)\\1", "", "aa"), ("\\$", "", "$"), ("a", "q", "a"), ("^a$", "", "^a$"), ("^a$", "", "a"), ("a^b", "", "a^b"), ("[a-c]+", "", "abc"), ("a+?", "", "a"), ("a{1,2}?", "", "a"), ("a??", "", "a"), ("$*", "", "$$"), ("(a|b)*c", "", "abc")]);
+        for c in v.iter_mut() {
+            c.dialect = Dialect::Xsd;
+        }
+        v
     }
     fn shrink_text(&self) -> bool {
         true
